@@ -249,6 +249,12 @@ pub fn build(
                     return Ok(None);
                 };
 
+                if type_.is_void_by_value() {
+                    anyhow::bail!(
+                        "field `{ident}` of type `{resolvee_path}` is a `void` by value; `void` can only be used behind a pointer"
+                    );
+                }
+
                 let ident = (ident.0 != "_").then(|| ident.0.clone());
                 pending_regions.push((
                     address,
